@@ -248,6 +248,8 @@ def cfg_script(rng, name):
         (0, [], 1, []),          # default trust, different keys: no trust
         (0, [1], 1, [0]),        # mutual explicit trust
         (0, [0, 1], 1, [1]),     # one-sided
+        (0, [1, 2], 1, [0, 2]),  # mutual trust through the FIRST entry of two-entry lists
+        (0, [2, 1, 3], 1, [3, 0, 2]),  # … through a middle entry
     ]
     for i, (ka, ta, kb, tb) in enumerate(cases):
         a, b = "A%d" % i, "B%d" % i
@@ -262,6 +264,9 @@ def cfg_script(rng, name):
         ops.append("iattempt c%d %s payload=%s" % (i, a, hx(rng.bytes(3))))
         ops.append("iattempt d%d %s payload=%s" % (i, b, hx(rng.bytes(4))))
         ops += ["iinit d%d" % i, "ideliver-from d%d 0 c%d" % (i, i), "ideliver-from c%d 0 d%d" % (i, i), "ideliver-from d%d 0 c%d" % (i, i)]
+        if i in (1, 3, 5, 6):
+            # each trusts the other's key (explicitly, at whatever position of the list, or by default through the shared key): both directions have completed
+            ops += ["iexpect both a%d b%d" % (i, i), "iexpect both c%d d%d" % (i, i)]
     return Script(name, ops, {"suite": "init"})
 
 
